@@ -121,6 +121,9 @@ impl Hasher {
 pub struct Digest {
 	/// 128-bit hash over every field listed in DESIGN.md H4.
 	pub hash: u128,
+	/// the same without the commit id counter
+	pub rest_hash: u128,
+	pub commit_id_counter: u64,
 	pub commit_queue_len: usize,
 	pub commit_queue_bytes: usize,
 	pub commit_overlay_entries: usize,
